@@ -225,11 +225,15 @@ def run_harness(binp, outdir, seed, tier, n=None, replay=None, timeout=1500, ext
     return rc, out, dt
 
 
+def drv_target(prop):
+    return "svdrv_" + prop.lower()
+
+
 def run_model(model, outdir, log):
-    drv = os.path.join(LEAN, ".lake/build/bin/svdrv")
+    drv = os.path.join(LEAN, ".lake/build/bin", drv_target(model))
     ops = os.path.join(outdir, "ops.txt")
     with open(ops, "rb") as f:
-        p = subprocess.run([drv, model], stdin=f, stdout=open(os.path.join(outdir, "model.txt"), "wb"),
+        p = subprocess.run([drv], stdin=f, stdout=open(os.path.join(outdir, "model.txt"), "wb"),
                            stderr=subprocess.PIPE, timeout=1500)
     return p.returncode, p.stderr.decode("utf-8", "replace")
 
@@ -298,8 +302,50 @@ def write_replay(prop, obj):
     return p
 
 
+def load_props():
+    import importlib
+    props = {}
+    for f in sorted(glob.glob(os.path.join(VERIF, "lib", "props_C*.py"))):
+        name = os.path.basename(f)[:-3]
+        mod = importlib.import_module(name)
+        props[name.split("_")[1]] = mod.CFG
+    return props
+
+
+def setup_all():
+    """build everything the checks need: extractor, generated files, Lean modules + drivers, Go harnesses"""
+    props = load_props()
+    ok = True
+    logs = []
+    log = lambda s: (logs.append(s), print(s, flush=True))
+    build_extractor()
+    targets = []
+    for prop, cfg in props.items():
+        try:
+            regen(prop, log)
+        except Exception as e:
+            print("setup: regen %s: %s" % (prop, e))
+        targets += list(cfg["lean_modules"])
+        if cfg.get("model"):
+            targets.append(drv_target(prop))
+    rc, out = lake_build(["SaramaVerif.Audit"] + targets, log)
+    if rc != 0:
+        print(out[-3000:])
+        # not fatal: a single broken module must not prevent the other properties' checks from running
+        for t in targets:
+            lake_build([t], log)
+    for prop, cfg in props.items():
+        rc, out, _ = build_harness(prop, cfg, log)
+        if rc != 0:
+            print(out[-2000:])
+            ok = False
+    return 0 if ok else 1
+
+
 def main():
-    from props import PROPS
+    if "--setup-all" in sys.argv:
+        return setup_all()
+    PROPS = load_props()
     ap = argparse.ArgumentParser()
     ap.add_argument("prop")
     ap.add_argument("--tier", default=os.environ.get("VERIF_TIER", "quick"))
@@ -336,7 +382,7 @@ def main():
     core = [m for m in modules if m not in bridge]
     built = []
     # the driver and the hand-written model/property theorems do not depend on Gen/: build them first
-    rc, out = lake_build(core + ["svdrv"], log)
+    rc, out = lake_build(core + ([drv_target(prop)] if cfg.get("model") else []), log)
     if rc != 0:
         for (f, ln, msg) in parse_lean_errors(out):
             proof_broken.append({"what": "theorem %s (%s:%d)" % (theorem_at(f, ln), f, ln), "detail": msg})
